@@ -10,4 +10,4 @@ echo "--- after applying $SLUG"
 /venv/bin/python harness/baseline.py 2>&1 | tail -3
 rc=${PIPESTATUS[0]}
 if [ $rc -ne 0 ]; then echo "baseline FAILED"; git -C /repo checkout -- .; exit 4; fi
-(cd /repo && git add -A mlinsights && git commit -q -F "/verif/$SLUG.msg" && git log --oneline | head -1)
+(cd /repo && git add -A mlinsights && python3 /verif/harness/fmtmsg.py < "/verif/$SLUG.msg" > /tmp/fixmsg.$$ && git commit -q -F /tmp/fixmsg.$$; rm -f /tmp/fixmsg.$$ && git log --oneline | head -1)
